@@ -405,6 +405,16 @@ def main():
         ({'kind': 'line', 'pts': [(x0 + 0.2, y0 + 0.2), (x0 + w32 + 0.4, y0 + 0.8)]}, 32, 3),
         ({'kind': 'poly', 'pts': [(x0 + 0.9, y0 + 0.3), (x0 + w32 + 0.5, y0 + 0.35), (x0 + 1.2, y0 + 1.0), (x0 + 0.9, y0 + 0.3)]}, 32, 3),
     ]
+    # paths that leave the cell of their first vertex and come BACK to it: closed loops and out-and-back tracks whose two
+    # end points share a cell (a result derived from the end points alone returns that one cell), three grids
+    for b_, L_ in ((32, 3), (16, 4), (64, 2)):
+        wq, hq = cell_dims(b_, L_)
+        xq, yq = 7 * wq, 9 * hq
+        fixed += [
+            ({'kind': 'line', 'pts': [(xq + 0.3 * wq, yq + 0.3 * hq), (xq + 3.4 * wq, yq + 0.6 * hq), (xq + 2.7 * wq, yq + 3.2 * hq), (xq + 0.3 * wq, yq + 0.3 * hq)]}, b_, L_),
+            ({'kind': 'line', 'pts': [(xq + 0.4 * wq, yq + 0.5 * hq), (xq + 4.2 * wq, yq + 2.6 * hq), (xq + 0.6 * wq, yq + 0.4 * hq)]}, b_, L_),
+            ({'kind': 'line', 'pts': [(xq + 0.5 * wq, yq + 0.5 * hq), (xq - 2.3 * wq, yq + 0.5 * hq), (xq - 2.3 * wq, yq - 1.8 * hq), (xq + 0.7 * wq, yq + 0.2 * hq)]}, b_, L_),
+        ]
     # hole-free shapes that do not contain their centroid: U (opening north / east), thin L, chevron, annulus, wide wedges
     U = [(0, 0), (9, 0), (9, 8), (7.7, 8), (7.7, 1.3), (1.3, 1.3), (1.3, 8), (0, 8)]
 
@@ -649,6 +659,38 @@ def main():
     n_coll = 48 if thorough else 8
     for n in range(n_coll):
         collection_case(n)
+
+    # hash twins in one collection.  Mechanism class: hash_collection (or anything under it) identifying member shapes by
+    # hash(shape) / a dict or set of shapes instead of visiting each.  The library's hashes ignore HOLES and VERTEX ORDER,
+    # so a solid box / polygon and the same outline with a hole owning interior cells - or two different rings over one
+    # vertex set - share a hash without being equal.  Both orders, with and without equal time bounds; judged like every
+    # other collection (result[cell] = agg_fn of exactly the shapes whose own hash set has the cell).
+    def twin_collection_case(n):
+        base = [16, 32, 64][n % 3]
+        L = LENGTHS[base][0]
+        w, h = cell_dims(base, L)
+        cx, cy = rng.uniform(-100, 100), rng.uniform(-40, 40)
+        dt = None if n % 2 else (100, 4000)
+        hole = [(cx - 1.6 * w, cy - 1.6 * h), (cx + 1.6 * w, cy - 1.6 * h), (cx + 1.6 * w, cy + 1.6 * h), (cx - 1.6 * w, cy + 1.6 * h)]
+        if n % 4 < 2:
+            solid = {'kind': 'box', 'nw': (cx - 3.3 * w, cy + 3.3 * h), 'se': (cx + 3.3 * w, cy - 3.3 * h)}
+            holed = dict(solid, holes=[hole])
+        else:
+            ring_ = [(cx - 3.3 * w, cy - 3.3 * h), (cx + 3.3 * w, cy - 3.3 * h), (cx + 3.3 * w, cy + 3.3 * h), (cx - 3.3 * w, cy + 3.3 * h)]
+            solid = {'kind': 'poly', 'pts': ring_}
+            holed = {'kind': 'poly', 'pts': ring_, 'holes': [hole]}
+        # two rings over ONE vertex set: a square with an interior vertex, the notch opening west / east
+        sq = [(cx - 3 * w, cy - 9 * h), (cx + 3 * w, cy - 9 * h), (cx + 3 * w, cy - 5 * h), (cx - 3 * w, cy - 5 * h)]
+        mid = (cx + 0.4 * w, cy - 7 * h)
+        notch_w = {'kind': 'poly', 'pts': [sq[0], sq[1], sq[2], sq[3], mid]}
+        notch_e = {'kind': 'poly', 'pts': [sq[0], sq[1], mid, sq[2], sq[3]]}
+        descs = [solid, holed, notch_w, notch_e]
+        if n % 8 >= 4:
+            descs = [holed, solid, notch_e, notch_w]
+        descs = [dict(d_, props={'id': j, 'entity': [3, 5, 8][j % 3]}, **({'dt': dt} if dt else {})) for j, d_ in enumerate(descs)]
+        run_collection(descs, False, base, L, 'hash-twins')
+    for n in range(8 if ck.tier == 'quick' else 24):
+        twin_collection_case(n)
 
     # ---------------------------------------------------------------- collections holding multi-shapes whose MEMBERS share cells
     # Mechanism class: the group-by of hash_collection (or an aggregator) fed from a stream of cells that is not the
